@@ -691,6 +691,7 @@ func checkC18(r *Report) {
 		nNF := sentinelWrappedRule(r, p, "C18.i/NOTFOUND-WRAPPED", "ErrNotFound")
 		r.floor("C18.i/NOTFOUND-WRAPPED", "not-found answers of the clients in package resolve", nNF, 6)
 		handedOutCopiedRule(r, p, "C18.j/HANDED-OUT-COPIED")
+		bundleKeyResolvedRule(r, p, "C18.k/BUNDLE-KEY-RESOLVED")
 		nNT := sentinelComparedRule(r, p, "C18.i/NOTFOUND-TESTED", "ErrNotFound")
 		r.floor("C18.i/NOTFOUND-TESTED", "tests for ErrNotFound in the resolvers and clients", nNT, 1)
 	}
